@@ -789,6 +789,80 @@ fn stage_ops(ctx: &Ctx, o: &mut Outcome, cases: &[OpsCase]) -> Vec<Option<String
     out
 }
 
+/// "deprecated aliases map to their successors", stated on its own: after a sequence of files and
+/// `--config` pairs the successor holds the value given for it explicitly, else the image of the
+/// alias.  (Sequences that touch the alias through the API setters are F16b and are left out.)
+fn alias_oracle(o: &mut Outcome, cases: &[OpsCase], results: &[Option<String>]) {
+    let pairs: [(&str, &str); 3] = [("merge_imports", "imports_granularity"), ("fn_args_layout", "fn_params_layout"), ("hide_parse_errors", "show_parse_errors")];
+    let image = |alias: &str, v: &str| -> String {
+        match alias {
+            "merge_imports" => if v == "true" { format!("x{}", enc_str("Crate")) } else { format!("x{}", enc_str("Preserve")) },
+            "hide_parse_errors" => if v == "true" { "false".into() } else { "true".into() },
+            _ => v.to_string(),
+        }
+    };
+    for (c, r) in cases.iter().zip(results.iter()) {
+        if c.family != "alias" {
+            continue;
+        }
+        let r = match r {
+            Some(r) if r != "err" => r,
+            _ => continue,
+        };
+        let f = parse_fields(r);
+        for (alias, succ) in pairs {
+            let touches = |t: &Tv| t.key == alias || t.key == succ;
+            if !c.ops.iter().any(|op| match op {
+                Op::Toml(v) => v.iter().any(touches),
+                Op::Override(t) | Op::Set(t) | Op::SetCli(t) => touches(t),
+                _ => false,
+            }) {
+                continue;
+            }
+            if c.ops.iter().any(|op| matches!(op, Op::Set(t) | Op::SetCli(t) if t.key == alias)) {
+                continue;
+            }
+            // (value, explicitly set) of the successor; None = its default
+            let mut sv: Option<String> = None;
+            let mut sset = false;
+            for op in &c.ops {
+                match op {
+                    Op::Toml(v) => {
+                        sv = None;
+                        sset = false;
+                        if let Some(t) = v.iter().find(|t| t.key == succ) {
+                            sv = Some(t.model.clone());
+                            sset = true;
+                        }
+                        if let Some(t) = v.iter().find(|t| t.key == alias) {
+                            if !sset {
+                                sv = Some(image(alias, &t.model));
+                            }
+                        }
+                    }
+                    Op::Override(t) if t.key == succ => {
+                        sv = Some(t.model.clone());
+                        sset = true;
+                    }
+                    Op::Override(t) if t.key == alias => {
+                        if !sset {
+                            sv = Some(image(alias, &t.model));
+                        }
+                    }
+                    Op::Set(t) | Op::SetCli(t) if t.key == succ => sv = Some(t.model.clone()),
+                    _ => {}
+                }
+            }
+            if let (Some(want), Some(got)) = (sv, f.get(succ)) {
+                o.direct_evals += 1;
+                if want != got.0 {
+                    o.direct_failures.push(json!({"sig": "c14:alias-mapping", "what": format!("{} = {} expected after {} (alias {}), got {}", succ, dec_model_val(&want), c.describe(), alias, dec_model_val(&got.0)), "request": c.request()}));
+                }
+            }
+        }
+    }
+}
+
 /// same value, same effect: one option from a file and from `--config` (all fields equal); from the
 /// API setter (values equal) outside the width keys and the aliases (F16 / F16b: probes)
 fn same_effect_oracle(o: &mut Outcome, cases: &[OpsCase], results: &[Option<String>]) {
@@ -1621,6 +1695,7 @@ pub fn run(tier: &str, seed: u64, out: &Path) -> i32 {
     cases.extend(gen_mixed(&ctx, &mut rng, if thorough { 6000 } else { 500 }));
     let results = stage_ops(&ctx, &mut o, &cases);
     same_effect_oracle(&mut o, &cases[..n_singles], &results[..n_singles]);
+    alias_oracle(&mut o, &cases, &results);
     // (c) heuristics, exhaustively
     stage_scaled(&ctx, &mut o);
     // (d) print / re-parse
@@ -1669,6 +1744,36 @@ pub fn run(tier: &str, seed: u64, out: &Path) -> i32 {
         // one of the three options alone: from the file (no flag) and from --config (empty file) — all fields equal
         let fields = |a: &Option<String>| a.as_ref().and_then(|x| x.split_once(';').map(|y| y.1.to_string()));
         let find = |n: usize, ci: usize| pindex.iter().position(|x| *x == (n, ci)).and_then(|i| fields(&answers[i]));
+        // the documented precedence, computed here on its own: style_edition > version > edition, command line
+        // (--config pair > flag) before the file, field by field
+        for (i, (n, _)) in pindex.iter().enumerate() {
+            let f = match fields(&answers[i]) {
+                Some(f) => parse_fields(&f),
+                None => continue,
+            };
+            let ob = &pobs[i];
+            let file = &pl[*n].contents[0];
+            let from_file = |k: &str| file.iter().find(|t| t.key == k).map(|t| dec_model_val(&t.model));
+            let from_inline = |k: &str| ob.opts.inline.iter().rev().find(|t| t.key == k).map(|t| dec_model_val(&t.model));
+            let se = from_inline("style_edition").or(ob.opts.api.style_edition.clone()).or(from_file("style_edition"));
+            let ver = from_inline("version").or(from_file("version"));
+            let ed = from_inline("edition").or(ob.opts.api.edition.clone()).or(from_file("edition"));
+            let chosen = match (&se, &ver, &ed) {
+                (Some(s), _, _) => s.clone(),
+                (None, Some(v), _) => if v == "Two" { "2024".to_string() } else { "2015".to_string() },
+                (None, None, Some(e)) => e.clone(),
+                _ => "2015".to_string(),
+            };
+            let new_style = chosen == "2024" || chosen == "2027";
+            let want_se = se.clone().unwrap_or_else(|| if new_style { "2024".into() } else { "2015".into() });
+            let want_ver = ver.clone().unwrap_or_else(|| if new_style { "Two".into() } else { "One".into() });
+            let got_se = f.get("style_edition").map(|x| dec_model_val(&x.0)).unwrap_or_default();
+            let got_ver = f.get("version").map(|x| dec_model_val(&x.0)).unwrap_or_default();
+            o.direct_evals += 1;
+            if got_se != want_se || got_ver != want_ver {
+                o.direct_failures.push(json!({"sig": "c14:style-edition-precedence", "what": format!("rustfmt.toml {{{}}} with `{}`: the defaults of style edition {} are due (style_edition = {}, version = {}), got style_edition = {}, version = {}", toml_text(file).replace('\n', "; "), ob.opts.describe(), chosen, want_se, want_ver, got_se, got_ver)}));
+            }
+        }
         // layout numbering of gen_precedence: n = (se * 3 + ver) * 5 + ed; command lines 6.. are the single --config pairs
         let singles: [(usize, usize, &str); 6] = [((4 * 3) * 5, 6, "style_edition=2024"), ((2 * 3) * 5, 7, "style_edition=2018"), (2 * 5, 8, "version=Two"), (5, 9, "version=One"), (4, 10, "edition=2024"), (3, 11, "edition=2021")];
         for (n_file, ci, what) in singles {
